@@ -30,16 +30,18 @@ def args_from_input(input: ArgsInput) -> Args:
         varnames[:pos_or_kw_count],
         varnames[pos_or_kw_count:],
     )
+    # The keyword only args are stored before the *args
+    # https://docs.python.org/3/library/inspect.html#types-and-members
+    keyword_only, varnames = (
+        varnames[:kwonlyargcount],
+        varnames[kwonlyargcount:],
+    )
     if "VARARGS" in flags_data:
         var_positional, varnames = varnames[0], varnames[1:]
         flags_data.remove("VARARGS")
     else:
         var_positional = None
 
-    keyword_only, varnames = (
-        varnames[:kwonlyargcount],
-        varnames[kwonlyargcount:],
-    )
     if "VARKEYWORDS" in flags_data:
         var_keyword, varnames = varnames[0], varnames[1:]
         flags_data.remove("VARKEYWORDS")
@@ -64,9 +66,23 @@ def args_to_input(args: Args, flags_data: FlagsData) -> ArgsInput:
         argcount=len(args.positional_only) + len(args.positional_or_keyword),
         posonlyargcount=len(args.positional_only),
         kwonlyargcount=len(args.keyword_only),
-        varnames=tuple(args.parameters.keys()),
+        varnames=args_to_varnames(args),
         flags_data=flags_data,
     )
+
+
+def args_to_varnames(args: Args) -> Tuple[str, ...]:
+    """
+    Returns the names of the args in the order they are stored in the varnames,
+    which is the order of the parameters, except that the *args come after the
+    keyword only args.
+    """
+    parameters = args.parameters
+    if args.var_positional:
+        parameters.move_to_end(args.var_positional)
+    if args.var_keyword:
+        parameters.move_to_end(args.var_keyword)
+    return tuple(parameters.keys())
 
 
 @dataclass
